@@ -228,6 +228,11 @@ def run(ctx, replay=None):
     for _ in range(ctx.pick(500, 10000)):
         xa = rarr()
         xb = rarr() if rnd.random() < 0.5 else xa[:rnd.randint(0, len(xa))] + rarr()[:rnd.randint(0, 2)]
+        if rnd.random() < 0.2:
+            # elements the host language takes for equal: true / 1, false / 0
+            xa, xb = rnd.choice([([True], [1]), ([0], [False]), ([[True]], [[1]]), ([1, True], [True, 1]), ([False, 2], [0, 2]), ([True, 'a'], [1, 'a'])])
+            if rnd.random() < 0.5:
+                xa, xb = xb, xa
         g2 = [{'name': 'xa', 'val': A.aval(xa)}, {'name': 'xb', 'val': A.aval(xb)}]
         e = {'k': 'bin', 'op': rnd.choice(['<', '<=', '>', '>=', '==', '!=']), 'l': var('xa'), 'r': var('xb')}
         cases.append(expr_case(e, g2) if rnd.random() < 0.5 else script_case(e, g2))
